@@ -739,8 +739,9 @@ impl Gen {
                         _ => "rollback".to_string(),
                     };
                 }
-                // push pushn truncate update delete take fill write flush reset reimport cpush
-                let mut w = [22u32, 12, 10, 9, 6, 3, 4, 16, 4, 1, 5, 2];
+                // push pushn truncate update delete take fill write flush reset reimport cpush swrite
+                // (swrite = stamped_write: the stamp is part of what C03 compares, also when nothing else is pending)
+                let mut w = [22u32, 12, 10, 9, 6, 3, 4, 16, 4, 1, 6, 2, 5];
                 if !self.raw { w[3] = 0; w[4] = 0; w[5] = 0; w[6] = 0; w[1] = 20; }
                 if len == 0 { w[2] = 1; w[3] = 0; w[4] = 0; w[5] = 0; }
                 if len > 6 * pp { w[1] = 0; w[0] = 5; w[2] = 30; }
@@ -767,6 +768,7 @@ impl Gen {
                     8 => "flush".into(),
                     9 => "reset".into(),
                     10 => format!("reimport {}", r.below(2)),
+                    12 => format!("swrite {}", 1 + r.below(1 << 20)),
                     _ => format!("cpush {} {}", len, self.val()),
                 }
             }
